@@ -206,35 +206,45 @@ func runC10(p *eng.Prog, r *eng.Report, tier string) {
 		c.r.Check("C10.3", u.fn, "use of Session.in.d", "C: outside negotiation the decoder is read only by lockReadCloser.Token", u.expr.Pos(), u.fn.Short == "xmpp.(*lockReadCloser).Token", "decoder used in "+u.fn.Short)
 	}
 
+	// ---- C10.7 SetCloseDeadline installs an independent deadline ------------------------
+	// the new context must not descend from the one it replaces: a child keeps
+	// its parent's earlier deadline (a later call could never extend it) and is
+	// cancelled together with it
+	if sd := c.fn("C10.7", "", "(*Session).SetCloseDeadline"); sd != nil {
+		g := sd.Graph()
+		nctx := 0
+		for _, w := range sd.FieldWrites("xmpp.Session.in.ctx") {
+			as, ok := w.Stmt.(*ast.AssignStmt)
+			if !ok || len(as.Rhs) != 1 {
+				continue
+			}
+			call, ok := ast.Unparen(as.Rhs[0]).(*ast.CallExpr)
+			if !ok {
+				continue
+			}
+			nctx++
+			pt, _ := g.Where(as)
+			okc := sd.CalleeID(call) == "context.WithDeadline" && len(call.Args) == 2
+			why := "the context is built by " + sd.CalleeID(call)
+			if okc {
+				parent, dl := sd.Norm(call.Args[0], &pt), sd.Norm(call.Args[1], &pt)
+				if strings.Contains(parent, ".in.ctx") || strings.Contains(parent, "recv.") {
+					okc, why = false, "the new context descends from "+parent+": it inherits the earlier deadline and cancellation"
+				}
+				if dl != "p0" {
+					okc, why = false, "the deadline is "+dl+", not the argument"
+				}
+			}
+			c.r.Check("C10.7", sd, "context installed by SetCloseDeadline", "P: Session.in.ctx = context.WithDeadline(<a context independent of the session's current one>, t)", as.Pos(), okc, why)
+		}
+		c.r.Floor("C10.7", "stores of Session.in.ctx in SetCloseDeadline", nctx, 1)
+	}
+
 	// ---- C10.4 Serve ------------------------------------------------------------------
 	sv := c.fn("C10.4", "", "(*Session).Serve")
 	if sv != nil {
 		g := sv.Graph()
-		// the close-deadline context is re-read in every iteration of the serve
-		// loop (SetCloseDeadline installs a NEW context while Serve runs): no
-		// cycle from the Done() wait back to itself avoids the read of in.ctx
-		nw := 0
-		for _, cl := range sv.Calls("context.Context.Done") {
-			pt, ok := g.Where(cl)
-			if !ok || !g.Reachable(g.After(pt), pt, nil, nil) {
-				continue // not in a loop
-			}
-			nw++
-			reads := func(q eng.Point, nd ast.Node) bool {
-				found := false
-				ast.Inspect(nd, func(x ast.Node) bool {
-					if sel, ok := x.(*ast.SelectorExpr); ok {
-						if k, _ := sv.FieldClass(sel); k == "xmpp.Session.in.ctx" {
-							found = true
-						}
-					}
-					return !found
-				})
-				return found
-			}
-			c.r.Check("C10.4", sv, "deadline context re-read per iteration", "O: every iteration of the serve loop waits on the CURRENT Session.in.ctx (SetCloseDeadline replaces it while Serve runs)", cl.Pos(), !g.Reachable(g.After(pt), pt, nil, reads), "the loop can come back to the Done() wait without reading Session.in.ctx again: a context captured before SetCloseDeadline is cancelled by it and Serve returns early with context.Canceled")
-		}
-		c.r.Floor("C10.4", "Done() waits in the serve loop", nw, 1)
+		serveCtxReread(c, "C10.4", sv)
 		okDefer := false
 		for _, d := range g.Defers {
 			lit, ok := ast.Unparen(d.Call.Fun).(*ast.FuncLit)
@@ -529,4 +539,37 @@ func closerTypestate(c *cx, id string) {
 			c.r.Check(id, f, "closer marked closed", "O: every return that passed the guard stores a non-nil marker in the closer's err field (a second Close does not unlock again)", rs.Pos(), g.MustPassBefore(g.Entry(), pt, setErr, nil), "a return leaves the closer open after unlocking")
 		}
 	}
+}
+
+// serveCtxReread: the close-deadline context is re-read in every iteration of
+// the serve loop (SetCloseDeadline installs a NEW context while Serve runs and
+// cancels the old one): no cycle from the Done() wait back to itself avoids the
+// read of Session.in.ctx.
+func serveCtxReread(c *cx, id string, sv *eng.Fn) {
+	g := sv.Graph()
+	// the close-deadline context is re-read in every iteration of the serve
+	// loop (SetCloseDeadline installs a NEW context while Serve runs): no
+	// cycle from the Done() wait back to itself avoids the read of in.ctx
+	nw := 0
+	for _, cl := range sv.Calls("context.Context.Done") {
+		pt, ok := g.Where(cl)
+		if !ok || !g.Reachable(g.After(pt), pt, nil, nil) {
+			continue // not in a loop
+		}
+		nw++
+		reads := func(q eng.Point, nd ast.Node) bool {
+			found := false
+			ast.Inspect(nd, func(x ast.Node) bool {
+				if sel, ok := x.(*ast.SelectorExpr); ok {
+					if k, _ := sv.FieldClass(sel); k == "xmpp.Session.in.ctx" {
+						found = true
+					}
+				}
+				return !found
+			})
+			return found
+		}
+		c.r.Check(id, sv, "deadline context re-read per iteration", "O: every iteration of the serve loop waits on the CURRENT Session.in.ctx (SetCloseDeadline replaces it while Serve runs)", cl.Pos(), !g.Reachable(g.After(pt), pt, nil, reads), "the loop can come back to the Done() wait without reading Session.in.ctx again: a context captured before SetCloseDeadline is cancelled by it and Serve returns early with context.Canceled")
+	}
+	c.r.Floor(id, "Done() waits in the serve loop", nw, 1)
 }
